@@ -6,10 +6,13 @@ Part 1 (exhaustive, sharded): every ordered client offer list of length <= 4 wit
 of a secure web proxy} x http2 {on, off} = 39 600 combinations, evaluated on the real `alpn_select_callback` with a stub
 connection that only provides `get_app_data()`.
 
-Part 2 (Hypothesis, wiring): the same kind of combination is pushed through the real `TlsConfig.tls_start_client` for
-different layer-stack shapes (regular proxy after CONNECT, outer and inner connection of a secure web proxy, reverse and
-transparent mode) and a real in-memory TLS handshake between the returned pyOpenSSL connection and a Python `ssl`
-client offering the list; the protocol the *client* ends up with is judged by the same clauses.
+Part 2 (Hypothesis, real layer stacks): the mode layer (HttpProxy / ReverseProxy / TransparentProxy) is driven sans-io with
+the real NextLayer and TlsConfig addons answering the hooks, so the stack is built exactly the way mitmproxy builds it:
+regular proxy (plain CONNECT, then TLS), secure web proxy (outer TLS handshake, CONNECT inside it, then the inner
+TLS handshake *inside* the outer session = TLS-over-TLS on the same Client object), reverse and transparent mode. The
+peer is a CPython `ssl` client (two chained ones for TLS-over-TLS). "Upstream known" = the server connection was
+opened (eager strategy) and carries a negotiated ALPN before the client handshake. The protocol each *client* session
+ends up with is judged by the same clauses (outer session of a secure web proxy: clause D; every other: A, B, C).
 
 Clauses (from the statement):
  A  the selected protocol is one of the client's offers, or none;
@@ -31,7 +34,8 @@ PID = "C18"
 LEVEL = "exploration"
 TECHNIQUE = "exhaustive enumeration of the finite selection domain + Hypothesis-sampled real in-memory TLS handshakes"
 RULE = ("all 39 600 combinations of offer list (<=4 of 7 protocols, ordered) x upstream protocol (9) x override (2) x http2 (2) "
-        "on alpn_select_callback, plus sampled real handshakes through tls_start_client for 5 layer-stack shapes; "
+        "on alpn_select_callback, plus sampled real handshakes through the real layer stacks of 4 proxy shapes (incl. "
+        "TLS-over-TLS for secure web proxies); "
         "non-trivial = non-empty offer list; distinct by combination")
 ASSUMPTIONS = [
     "ALPN protocol names are non-empty (TLS forbids empty names; OpenSSL never passes one to the callback)",
@@ -48,7 +52,6 @@ QUICK_N, THOROUGH_N = 1_600, 60_000  # handshakes (part 2); part 1 is always com
 PROTOS = [b"h2", b"h3", b"http/1.1", b"http/1.0", b"http/0.9", b"acme-tls/1", b"qux"]
 UPSTREAM = [None, b""] + PROTOS
 OVERRIDE = [None, b"http/1.1"]
-SHAPES = ["regular-after-connect", "swp-outer", "swp-inner", "reverse", "transparent"]
 
 
 class _NoOverlap:
@@ -129,121 +132,208 @@ def tls_addon(tctx_factory):
     return _tls
 
 
-def build_context(tctx, shape, upstream):
-    from mitmproxy import connection
-    from mitmproxy.connection import ConnectionState
-    from mitmproxy.proxy import context, layers
-    from mitmproxy.proxy.layers import modes
-    from mitmproxy.proxy.mode_specs import ProxyMode
+class TlsClient:
+    """CPython ssl client over memory BIOs"""
 
-    mode = {"regular-after-connect": "regular", "swp-outer": "regular", "swp-inner": "regular",
-            "reverse": "reverse:https://example.test:443", "transparent": "transparent"}[shape]
-    client = connection.Client(peername=("192.0.2.7", 51000), sockname=("192.0.2.1", 8080), timestamp_start=1.0,
-                               state=ConnectionState.OPEN, proxy_mode=ProxyMode.parse(mode))
-    client.sni = "example.test"
-    c = context.Context(client, tctx.options)
-    if shape == "swp-outer":
-        modes.HttpProxy(c)
-        layers.ClientTLSLayer(c)
-    else:
-        c.server.address = ("example.test", 443)
-        if shape == "regular-after-connect":
-            modes.HttpProxy(c)
-            layers.HttpLayer(c, layers.http.HTTPMode.regular)
-            layers.ClientTLSLayer(c)
-        elif shape == "swp-inner":
-            modes.HttpProxy(c)
-            layers.ClientTLSLayer(c)
-            layers.HttpLayer(c, layers.http.HTTPMode.regular)
-            layers.ClientTLSLayer(c)
-        elif shape == "reverse":
-            modes.ReverseProxy(c)
-            layers.ClientTLSLayer(c)
-        else:
-            modes.TransparentProxy(c)
-            layers.ClientTLSLayer(c)
-        c.server.alpn = upstream
-    return c
+    def __init__(self, offers, sni):
+        cctx = ssl.SSLContext(ssl.PROTOCOL_TLS_CLIENT)
+        cctx.check_hostname = False
+        cctx.verify_mode = ssl.CERT_NONE
+        if offers:
+            cctx.set_alpn_protocols([o.decode("ascii") for o in offers])
+        self.inb, self.outb = ssl.MemoryBIO(), ssl.MemoryBIO()
+        self.obj = cctx.wrap_bio(self.inb, self.outb, server_hostname=sni)
+        self.done = False
 
-
-def handshake(ssl_conn, offers):
-    """run a TLS handshake between the pyOpenSSL server object and a CPython ssl client; returns the client's ALPN"""
-    from OpenSSL import SSL
-    cctx = ssl.SSLContext(ssl.PROTOCOL_TLS_CLIENT)
-    cctx.check_hostname = False
-    cctx.verify_mode = ssl.CERT_NONE
-    if offers:
-        cctx.set_alpn_protocols([o.decode("ascii") for o in offers])
-    inb, outb = ssl.MemoryBIO(), ssl.MemoryBIO()
-    cobj = cctx.wrap_bio(inb, outb, server_hostname="example.test")
-    cdone = sdone = False
-    for _ in range(30):
-        if not cdone:
+    def step(self):
+        if not self.done:
             try:
-                cobj.do_handshake()
-                cdone = True
+                self.obj.do_handshake()
+                self.done = True
             except ssl.SSLWantReadError:
                 pass
-        data = outb.read()
-        if data:
-            ssl_conn.bio_write(data)
-        if not sdone:
+        return self.outb.read()
+
+    def alpn(self):
+        a = self.obj.selected_alpn_protocol()
+        return a.encode() if a is not None else None
+
+
+class Direct:
+    """bytes on the client's TCP connection to the proxy (through the sans-io driver)"""
+
+    def __init__(self, drv, client):
+        self.drv, self.client, self.pos = drv, client, 0
+
+    def send(self, data):
+        self.drv.recv(self.client, data)
+
+    def recv(self):
+        out = self.drv.out(self.client)[self.pos:]
+        self.pos += len(out)
+        return out
+
+
+class Tunnel:
+    """bytes inside an established TLS session `tc` that itself runs over `lower` (TLS-over-TLS)"""
+
+    def __init__(self, tc, lower):
+        self.tc, self.lower = tc, lower
+
+    def send(self, data):
+        self.tc.obj.write(data)
+        self.lower.send(self.tc.outb.read())
+
+    def recv(self):
+        inc = self.lower.recv()
+        if inc:
+            self.tc.inb.write(inc)
+        out = b""
+        while True:
             try:
-                ssl_conn.do_handshake()
-                sdone = True
-            except SSL.WantReadError:
-                pass
-        try:
-            inb.write(ssl_conn.bio_read(65536))
-        except SSL.WantReadError:
-            pass
-        if cdone and sdone:
-            break
-    else:
-        raise HarnessError("handshake did not finish")
-    sel = cobj.selected_alpn_protocol()
-    srv = ssl_conn.get_alpn_proto_negotiated()
-    return (sel.encode() if sel is not None else None), (srv or None)
+                chunk = self.tc.obj.read(65536)
+            except ssl.SSLWantReadError:
+                break
+            if not chunk:
+                break
+            out += chunk
+        pending = self.tc.outb.read()
+        if pending:
+            self.lower.send(pending)
+        return out
+
+
+def run_handshake(tc, pipe):
+    for _ in range(40):
+        out = tc.step()
+        if out:
+            pipe.send(out)
+        inc = pipe.recv()
+        if inc:
+            tc.inb.write(inc)
+        if tc.done and not out and not inc:
+            return
+    raise HarnessError("handshake did not finish")
+
+
+_env = None
+
+
+def stack_env():
+    """TlsConfig + NextLayer + Proxyserver (for its options) registered once per process; per case only options change.
+    None of the three keeps per-connection state that the cases touch (the certstore is a cache of leaf certificates)."""
+    global _env
+    if _env is None:
+        import atexit
+        from addons_ctx import shared_addon_context
+        from mitmproxy.addons import next_layer
+        from mitmproxy.addons.proxyserver import Proxyserver
+        ta = tls_addon(shared_addon_context)
+        nl = next_layer.NextLayer()
+        cm = shared_addon_context(Proxyserver(), ta, nl)
+        tctx = cm.__enter__()
+        atexit.register(cm.__exit__, None, None, None)
+        _env = (tctx, ta, nl)
+    return _env
+
+
+OUTER_OFFERS = [[b"http/1.1"], [b"h2", b"http/1.1"], [b"http/1.1", b"h2"], [], [b"http/1.0"], [b"h2"], [b"http/1.1", b"qux"]]
+MODE_OF = {"regular": "regular", "swp": "regular", "reverse": "reverse:https://example.test:443", "transparent": "transparent"}
+SHAPES = ["swp", "swp", "regular", "reverse", "transparent"]
 
 
 def strategy(ctx):
     return st.tuples(st.lists(st.sampled_from(PROTOS), max_size=4, unique=True),
-                     st.sampled_from(UPSTREAM), st.booleans(), st.sampled_from(SHAPES))
+                     st.sampled_from(UPSTREAM), st.booleans(), st.sampled_from(SHAPES),
+                     st.sampled_from([0, 0, 0, 1, 2, 3, 4, 5, 6]))
 
 
 def check_case(case, ctx):
-    if len(case) == 4 and not isinstance(case[3], str):
+    """[offers, upstream, override, http2]  -> callback row
+       [offers, upstream, http2, shape, outer_offers_index] -> real layer stack + real handshake(s)"""
+    if len(case) == 4:
         return check_callback(case, ctx)
-    from addons_ctx import shared_addon_context
-    from mitmproxy import tls
-    offers, upstream, http2, shape = case
-    ta = tls_addon(shared_addon_context)
-    with shared_addon_context(ta) as tctx:
-        tctx.options.update(http2=http2)
-        c = build_context(tctx, shape, upstream)
-        outer = shape == "swp-outer"
-        data = tls.TlsData(c.client, c)
-        try:
-            ta.tls_start_client(data)
-        except Exception as e:
-            ctx.crash(e)
+    import driver
+    from mitmproxy import connection
+    from mitmproxy.connection import ConnectionState
+    from mitmproxy.proxy import context
+    from mitmproxy.proxy.layers import modes
+    from mitmproxy.proxy.mode_specs import ProxyMode
+
+    offers, upstream, http2, shape, outer_i = case
+    tctx, ta, nl = stack_env()
+    # the upstream protocol is "known" when the server connection exists and has finished its TLS handshake before the
+    # client handshake starts (eager strategy); "unknown" = no server connection yet (lazy strategy)
+    tctx.options.update(http2=http2, connection_strategy="lazy" if upstream is None else "eager")
+    client = connection.Client(peername=("192.0.2.7", 51000), sockname=("192.0.2.1", 8080), timestamp_start=1.0,
+                               state=ConnectionState.OPEN, proxy_mode=ProxyMode.parse(MODE_OF[shape]))
+    c = context.Context(client, tctx.options)
+    if shape in ("regular", "swp"):
+        top = modes.HttpProxy(c)
+    elif shape == "reverse":
+        top = modes.ReverseProxy(c)
+    else:
+        c.server.address = ("example.test", 443)
+        top = modes.TransparentProxy(c)
+
+    def hook(h):
+        if h.name == "next_layer":
+            nl.next_layer(h.data)
+        elif h.name == "tls_clienthello":
+            ta.tls_clienthello(h.data)
+        elif h.name == "tls_start_client":
+            ta.tls_start_client(h.data)
+        # tls_start_server is left unanswered: no upstream handshake is ever needed (see on_open)
+
+    def on_open(srv):
+        if upstream is not None:
+            srv.tls = True
+            srv.alpn = upstream
+            srv.timestamp_tls_setup = 2.0
+
+    drv = driver.Driver(c, top, hook_policy=hook)
+    drv.on_open = on_open
+    try:
+        drv.start()
+        pipe = Direct(drv, client)
+        if shape == "swp":
+            outer_offers = OUTER_OFFERS[outer_i % len(OUTER_OFFERS)]
+            outer = TlsClient(outer_offers, "proxy.test")
+            run_handshake(outer, pipe)
+            osel = outer.alpn()
+            judge(ctx, outer_offers, None, True, http2, osel, "outer:")
+            ctx.cls("stack swp outer: %s" % ("none" if osel is None else osel.decode()))
+            if osel not in (None, b"http/1.1", b"http/1.0"):
+                return  # cannot speak HTTP/1 CONNECT on this connection; the violation (if any) is recorded above
+            pipe = Tunnel(outer, pipe)
+        if shape in ("regular", "swp"):
+            pipe.send(b"CONNECT example.test:443 HTTP/1.1\r\nHost: example.test:443\r\n\r\n")
+            reply = pipe.recv()
+            if not reply.startswith(b"HTTP/1.1 200"):
+                raise HarnessError("CONNECT was not accepted: %r crashed=%r" % (reply[:80], drv.crashed))
+        inner = TlsClient(offers, "example.test")
+        run_handshake(inner, pipe)
+    except HarnessError:
+        raise
+    except ssl.SSLError as e:
+        ctx.fail("e2e:handshake-failed:%s" % shape, "offers=%r upstream=%r http2=%r: %r" % (offers, upstream, http2, e))
+        return
+    if drv.crashed is not None:
+        if not inner.done:
+            ctx.crash(drv.crashed)
             return
-        if data.ssl_conn is None:
-            ctx.fail("e2e:no-ssl-conn", shape)
-            return
-        try:
-            sel, srv = handshake(data.ssl_conn, offers)
-        except HarnessError:
-            raise
-        except Exception as e:
-            ctx.fail("e2e:handshake-failed:%s" % type(e).__name__, "offers=%r upstream=%r http2=%r shape=%s: %r" % (offers, upstream, http2, shape, e))
-            return
-        if sel != srv:
-            ctx.fail("e2e:client-server-disagree", "client=%r server=%r" % (sel, srv))
-        judge(ctx, offers, None if outer else upstream, outer, http2, sel, "")
-        if offers:
-            ctx.nt(("e2e", tuple(offers), upstream, http2, shape))
-        ctx.cls("e2e %s: %s" % (shape, "none" if sel is None else sel.decode()))
+        # the layer *above* TLS crashed after the handshake (e.g. "h3" negotiated on a TCP connection): not this
+        # property's business, the negotiated protocol is still judged
+        ctx.cls("ignored: crash above TLS after the handshake")
+    sel = inner.alpn()
+    if upstream is not None and not any(s.alpn == upstream for s in drv.servers):
+        raise HarnessError("upstream protocol was not installed on the server connection")
+    if (client.alpn or None) != sel:
+        ctx.fail("e2e:client-alpn-attribute", "client negotiated %r but Client.alpn=%r" % (sel, client.alpn))
+    judge(ctx, offers, upstream, False, http2, sel, "")
+    if offers:
+        ctx.nt(("e2e", tuple(offers), upstream, http2, shape, outer_i if shape == "swp" else 0))
+    ctx.cls("stack %s: %s" % (shape, "none" if sel is None else "upstream" if sel == upstream else sel.decode()))
 
 
 def all_offer_lists():
